@@ -354,7 +354,7 @@ def modeOf (isPtr isRef : Bool) : Mode :=
 theorem call_list_scalar (h : Heap) (e : Env) (v : Var) (isPtr isRef : Bool) :
     evalCall h e (modeOf isPtr isRef) (callExpr 1 isPtr isRef v) =
       some (match modeOf isPtr isRef with
-            | .pointer => .ptr v.addr | .reference => .ref v.addr | .value => .val (e.get v)) := by
+            | .pointer => .ptr v.addr | .reference => .ref v.addr | _ => .val (e.get v)) := by
   cases isPtr <;> cases isRef <;> simp [modeOf, callExpr, evalCall]
 
 /-- local kind `pointer` (the local points to the object `a`): the callee gets `a` (`x` for a
@@ -363,7 +363,7 @@ theorem call_list_pointer (h : Heap) (e : Env) (v : Var) (a : Addr) (isPtr isRef
     (hv : e.get v = .ptr a) :
     evalCall h e (modeOf isPtr isRef) (callExpr 2 isPtr isRef v) =
       some (match modeOf isPtr isRef with
-            | .pointer => .ptr a | .reference => .ref a | .value => .val (load h e a)) := by
+            | .pointer => .ptr a | .reference => .ref a | _ => .val (load h e a)) := by
   cases isPtr <;> cases isRef <;> simp [modeOf, callExpr, evalCall, hv]
 
 /-- no local: a by-value parameter gets the C value, a pointer parameter the C pointer, a reference
@@ -376,7 +376,7 @@ theorem call_list_none_indirect (h : Heap) (e : Env) (v : Var) (a : Addr) (isPtr
     (hi : isPtr = true ∨ isRef = true) (hx : ¬ (isPtr = true ∧ isRef = true)) (hv : e.get v = .ptr a) :
     evalCall h e (modeOf isPtr isRef) (callExpr 0 isPtr isRef v) =
       some (match modeOf isPtr isRef with
-            | .pointer => .ptr a | .reference => .ref a | .value => .val (e.get v)) := by
+            | .pointer => .ptr a | .reference => .ref a | _ => .val (e.get v)) := by
   cases isPtr <;> cases isRef <;> simp_all [modeOf, callExpr, evalCall]
 
 /-- dropping the dereference for a reference parameter binds the reference to the wrapper's own
@@ -400,6 +400,7 @@ structure Param where
   ty : Ty
   mode : Mode
   intent : Intent
+  inner : Bool := false      -- the pointee is itself a pointer: `T **` (mode pointer) / `T *&` (mode reference)
   deriving DecidableEq, Repr
 
 def sgroupOf : Ty → Nat
@@ -407,7 +408,12 @@ def sgroupOf : Ty → Nat
   | .cstr => p_char | .string => p_string | .shadow => p_shadow | .struct => p_struct
 
 def spointerOf : Mode → Nat
-  | .value => p_scalar | .pointer => p_ptr | .reference => p_ref
+  | .value => p_scalar | .pointer => p_ptr | .reference => p_ref | .convString => p_scalar
+
+def spointerOf2 : Mode → Bool → Nat
+  | .pointer, true => p_ptrptr
+  | .reference, true => p_ptrref
+  | m, _ => spointerOf m
 
 def intentOf : Intent → Nat
   | .in_ => p_in | .out => p_out | .inout => p_inout
@@ -417,15 +423,20 @@ def convOf : Ty → Nat
   | .enum => 1 | .shadow => 2 | _ => 0
 
 def descOf (p : Param) : ArgDesc :=
-  { sgroup := sgroupOf p.ty, spointer := spointerOf p.mode, intent := intentOf p.intent, suffix := 0,
-    extra := [], isPtr := p.mode = .pointer, isRef := p.mode = .reference, valueAttr := p.mode = .value,
+  { sgroup := sgroupOf p.ty, spointer := spointerOf2 p.mode p.inner, intent := intentOf p.intent, suffix := 0,
+    extra := [], isPtr := p.mode = .pointer || (p.inner && p.mode = .reference), isRef := p.mode = .reference,
+    valueAttr := p.mode = .value || p.mode = .convString,
     conv := convOf p.ty, isResult := false }
 
 /-- declarations in the modelled domain: `char` by value (`chr`) and `char *` (`cstr`) are separate
     kinds; by-value parameters are `in`; enum pointers/references are outside (see
-    `enum_indirect_ill_typed`); `std::string` by value is not modelled. -/
+    `enum_indirect_ill_typed`); `std::string` by value is mode `convString`; `inner` marks `T **` / `T *&`
+    (native only). -/
 def Param.valid (p : Param) : Bool :=
+  if p.inner then (p.ty = .native && (p.mode = .pointer || p.mode = .reference)) else
   match p.ty, p.mode with
+  | .string, .convString => p.intent = .in_
+  | _, .convString => false
   | .chr, .value => p.intent = .in_
   | .chr, _ => false
   | .cstr, .pointer => true
@@ -445,7 +456,7 @@ def wellTyped (h : Heap) (p : Param) (c : Val) : Prop :=
   | .enum, .value => ∃ n, c = .int n
   | .struct, .value => ∃ n, c = .blob n
   | .shadow, .value => ∃ a i id, c = .capsule (some a) i ∧ h a = .obj id
-  | .string, _ => ∃ a s, c = .ptr (.heap a) ∧ h a = .str s
+  | .string, _ => ∃ a s, c = .ptr (.heap a) ∧ h a = .str s   -- also by value: the C prototype is `char *`
   | .shadow, _ => ∃ a o i, c = .ptr (.heap a) ∧ h a = .capsule (some o) i
   | _, _ => ∃ a, c = .ptr (.heap a)
 
@@ -453,6 +464,7 @@ def wellTyped (h : Heap) (p : Param) (c : Val) : Prop :=
 def expected (h : Heap) (p : Param) (c : Val) : Seen :=
   match p.ty, p.mode, c with
   | .enum, .value, .int n => .val (.enum n)                  -- enum from its int form
+  | .string, .convString, .ptr (.heap a) => .val (h a)       -- std::string by value built from the C string
   | .string, m, .ptr (.heap a) =>                            -- std::string rebuilt from the C string
     (match p.intent with
      | .out => .tmp m (.str [])
@@ -469,6 +481,7 @@ def docPlan (p : Param) : ArgPlan :=
   match p.ty, p.mode with
   | .enum, m => ⟨[.arg], [.castEnum], some (if m = .reference then .deref .cxx else .plain .cxx), []⟩
   | .chr, .value => ⟨[.argDecl 1], [], some (.plain .c), []⟩
+  | .string, .convString => ⟨[.argDecl 1], [], some (.plain .c), []⟩
   | .string, m =>
     ⟨[.arg], [if p.intent = .out then .strEmpty else .strFromC],
      some (if m = .pointer then .addrOf .cxx else .plain .cxx),
@@ -479,17 +492,18 @@ def docPlan (p : Param) : ArgPlan :=
   | .struct, m =>
     ⟨[.arg], [.structCast (m = .value)], some (if m = .pointer then .plain .cxx else .deref .cxx), []⟩
   | _, .reference => ⟨[.arg], [], some (.deref .c), []⟩
+  | _, .pointer => ⟨[if p.inner && p.intent = .in_ then .argDecl 1 else .arg], [], some (.plain .c), []⟩
   | _, _ => ⟨[.arg], [], some (.plain .c), []⟩
 
 def allTys : List Ty := [.native, .bool, .chr, .enum, .cstr, .string, .shadow, .struct]
-def allModes : List Mode := [.value, .pointer, .reference]
+def allModes : List Mode := [.value, .pointer, .reference, .convString]
 def allIntents : List Intent := [.in_, .out, .inout]
 def allParams : List Param :=
-  allTys.flatMap fun t => allModes.flatMap fun m => allIntents.map fun i => ⟨t, m, i⟩
+  allTys.flatMap fun t => allModes.flatMap fun m => allIntents.flatMap fun i => [⟨t, m, i, false⟩, ⟨t, m, i, true⟩]
 
 theorem mem_allParams (p : Param) : p ∈ allParams := by
-  obtain ⟨t, m, i⟩ := p
-  cases t <;> cases m <;> cases i <;> decide
+  obtain ⟨t, m, i, n⟩ := p
+  cases t <;> cases m <;> cases i <;> cases n <;> decide
 
 def planOf (p : Param) : ArgPlan :=
   assembleArg (descOf p) (selectEntry entries tree ((descOf p).key vocab))
@@ -499,14 +513,15 @@ def planOf (p : Param) : ArgPlan :=
     per-argument rules of wrap_function, is exactly the documented Op shape, with `{cxx_var}` /
     `{c_var}` in the documented positions, address-of vs dereference as documented.
     (Enum pointers/references are included: the table says what the code does for them.) -/
-theorem table_arg_shapes : ∀ p : Param, (p.valid = true ∨ p.ty = .enum) → planOf p = docPlan p := by
-  have h : (allParams.all fun p => !(p.valid || p.ty == .enum) || planOf p == docPlan p) = true := by
+theorem table_arg_shapes : ∀ p : Param, (p.valid = true ∨ (p.ty = .enum ∧ p.inner = false)) →
+    planOf p = docPlan p := by
+  have h : (allParams.all fun p => !(p.valid || (p.ty == .enum && !p.inner)) || planOf p == docPlan p) = true := by
     decide +kernel
   intro p hp
   have := List.all_eq_true.mp h p (mem_allParams p)
-  rcases hp with hp | hp
+  rcases hp with hp | ⟨hp, hq⟩
   · simpa [hp] using this
-  · simpa [hp] using this
+  · simpa [hp, hq] using this
 
 /-- semantics of the documented shapes, for all values -/
 theorem docPlan_equiv (h : Heap) (p : Param) (c : Val) (hv : p.valid = true) (hw : wellTyped h p c) :
@@ -530,15 +545,32 @@ theorem arg_call_equivalence (h : Heap) (p : Param) (c : Val) (hv : p.valid = tr
   rw [table_arg_shapes p (Or.inl hv)]
   exact docPlan_equiv h p c hv hw
 
-example : runArg (fun _ => .str [104, 105]) .reference (planOf ⟨.string, .reference, .in_⟩) (.ptr (.heap 7))
+example : runArg (fun _ => .str [104, 105]) .reference (planOf ⟨.string, .reference, .in_, false⟩) (.ptr (.heap 7))
     = some (.tmp .reference (.str [104, 105])) := by decide +kernel
+
+/-- `std::string` by value: the wrapper passes the `char *` and C++ builds the parameter from it -/
+theorem string_by_value (h : Heap) (a : Nat) (s : List Nat) (hs : h a = .str s) :
+    runArg h .convString (planOf ⟨.string, .convString, .in_, false⟩) (.ptr (.heap a)) = some (.val (.str s)) := by
+  have := arg_call_equivalence h ⟨.string, .convString, .in_, false⟩ (.ptr (.heap a)) (by decide) ⟨a, s, rfl, hs⟩
+  simpa [expected, hs] using this
+
+/-- `T **` is passed through, `T *&` is rebuilt from the `T **` the C caller passes (`*x`): in both
+    cases the callee works on the caller's pointer cell `a`, for every intent. -/
+theorem pointer_to_pointer (h : Heap) (a : Nat) (i : Intent) :
+    runArg h .pointer (planOf ⟨.native, .pointer, i, true⟩) (.ptr (.heap a)) = some (.obj .pointer a) ∧
+    runArg h .reference (planOf ⟨.native, .reference, i, true⟩) (.ptr (.heap a)) = some (.obj .reference a) := by
+  constructor
+  · have := arg_call_equivalence h ⟨.native, .pointer, i, true⟩ (.ptr (.heap a)) (by cases i <;> decide) ⟨a, rfl⟩
+    simpa [expected] using this
+  · have := arg_call_equivalence h ⟨.native, .reference, i, true⟩ (.ptr (.heap a)) (by cases i <;> decide) ⟨a, rfl⟩
+    simpa [expected] using this
 
 /-- the model reproduces the code's behaviour for enum pointers/references: `c_to_cxx`
     (`static_cast<E>(p)`) is applied to the pointer, which is ill-typed (does not compile).
     Open finding; such parameters are outside `Param.valid`. -/
 theorem enum_indirect_ill_typed (h : Heap) (m : Mode) (i : Intent) (a : Addr) (hm : m ≠ .value) :
-    runArg h m (planOf ⟨.enum, m, i⟩) (.ptr a) = some .bad := by
-  rw [table_arg_shapes _ (Or.inr rfl)]
+    runArg h m (planOf ⟨.enum, m, i, false⟩) (.ptr a) = some .bad := by
+  rw [table_arg_shapes _ (Or.inr ⟨rfl, rfl⟩)]
   cases m <;> simp at hm <;> simp [runArg, docPlan, runPre, evalRhs, evalCall, resolve, Env.get]
 
 /-- all arguments, in declaration order (induction over the parameter list) -/
@@ -564,20 +596,21 @@ theorem args_call_equivalence (h : Heap) : ∀ (ps : List Param) (cs : List Val)
     the caller's memory at the pointer the caller passed (directly for pass-through kinds, through
     `strcpy` for `std::string` out/inout); `in` strings are not copied back. -/
 theorem arg_out_equivalence (h : Heap) (p : Param) (a : Nat) (w : Val) (hv : p.valid = true)
-    (hm : p.mode ≠ .value) (hs : p.ty ≠ .shadow) (hw : wellTyped h p (.ptr (.heap a))) :
+    (hm : p.mode ≠ .value) (hm2 : p.mode ≠ .convString) (hs : p.ty ≠ .shadow)
+    (hw : wellTyped h p (.ptr (.heap a))) :
     runArgOut h p.mode (planOf p) (.ptr (.heap a)) (some w) =
       (if p.ty = .string ∧ p.intent = .in_ then none else some (a, w)) := by
   rw [table_arg_shapes p (Or.inl hv)]
   obtain ⟨t, m, i⟩ := p
-  cases t <;> cases m <;> cases i <;> simp [Param.valid] at hv <;> simp at hm <;> simp at hs <;>
+  cases t <;> cases m <;> cases i <;> simp [Param.valid] at hv <;> simp at hm <;> simp at hm2 <;> simp at hs <;>
     simp [runArgOut, docPlan, runPre, evalRhs, evalCall, Env.get, Var.addr]
 
 /-- a `std::string` the callee does not assign is copied back unchanged for `inout` -/
 theorem string_inout_untouched (h : Heap) (m : Mode) (a : Nat) (s : List Nat) (hm : m ≠ .value)
-    (hs : h a = .str s) :
-    runArgOut h m (planOf ⟨.string, m, .inout⟩) (.ptr (.heap a)) none = some (a, .str s) := by
+    (hm2 : m ≠ .convString) (hs : h a = .str s) :
+    runArgOut h m (planOf ⟨.string, m, .inout, false⟩) (.ptr (.heap a)) none = some (a, .str s) := by
   rw [table_arg_shapes _ (Or.inl (by cases m <;> simp_all [Param.valid]))]
-  cases m <;> simp at hm <;> simp [runArgOut, docPlan, runPre, evalRhs, evalCall, Env.get, Var.addr, hs]
+  cases m <;> simp at hm <;> simp at hm2 <;> simp [runArgOut, docPlan, runPre, evalRhs, evalCall, Env.get, Var.addr, hs]
 
 /-! ## results, `this`, whole wrapper -/
 
@@ -782,7 +815,7 @@ theorem call_equivalence_method (h : Heap) (k : RKind) (m s c : Bool) (ps : List
 example :
     runWrapper (fun a => if a = 1 then .capsule (some 9) 0 else if a = 2 then .str [120] else .int 4)
       (assembleC vocab entries tree (funcOf .nativeVal true false true
-        [⟨.string, .reference, .in_⟩, ⟨.native, .reference, .inout⟩, ⟨.enum, .value, .in_⟩]))
+        [⟨.string, .reference, .in_, false⟩, ⟨.native, .reference, .inout, false⟩, ⟨.enum, .value, .in_, false⟩]))
       [.reference, .reference, .value] [.ptr (.heap 1), .ptr (.heap 2), .ptr (.heap 3), .int 5]
       false (.val (.int 7)) (some 0) 0 0
     = (⟨some (.ptr (.heap 9)), [.tmp .reference (.str [120]), .obj .reference 3, .val (.enum 5)]⟩,
@@ -864,7 +897,7 @@ example : lookupStmts tree [p_c, p_string, p_ref, p_in] = some 21 := by decide +
 
 /-- `_partial`: argument kinds that exist in the table but are not given a semantics here: every
     entry with a buf / cfi / cdesc part (bufferify and CFI API: std::vector, character buffers,
-    array contexts), `**` / `*&` arguments, `std::string` by value, function pointers, MPI_Comm,
+    array contexts), `**` / `*&` of non-native types (`char **`, `void **`), function pointers, MPI_Comm,
     template arguments, `deref(scalar)` results, C_error_pattern, fstatements overrides.
     What is proved for them: they are unreachable from plain keys (no buf/cfi/cdesc part). -/
 theorem plain_keys_reach_plain_entries_partial :
